@@ -2,7 +2,8 @@
 # seed_suite.sh <seeded-dir-name>
 # Confirms that the repository's pinned test suite (the stable_pass list of /root/.vp/BASELINE.json)
 # still passes with a stored seeded defect applied: scratch worktree, patch, the baseline command,
-# compare. Writes /verif/seeded/<dir>/suite.txt ("suite: ok ..." or the failing tests).
+# compare (tools/seed_suite_cmp.py; flaky timing tests are re-run alone). Writes
+# /verif/seeded/<dir>/suite.txt ("suite: ok ..." or the failing tests). `_baseline` = no patch.
 set -u
 S=/verif/seeded/$1
 export GOFLAGS=-mod=mod GOPROXY=off
@@ -15,31 +16,7 @@ for m in . integration_tests; do
   n=$(echo $m | tr -c 'a-z_\n' '_')
   (cd $WT/$m && go test -mod=mod -json -vet=off -count=1 -timeout 25m ./... > $L/$n.json 2> $L/$n.err)
 done
-python3 - $L $S/suite.txt <<'EOF'
-import json, sys, glob
-L, out = sys.argv[1], sys.argv[2]
-want = set(json.load(open('/root/.vp/BASELINE.json'))['stable_pass'])
-res = {}
-for f in glob.glob(L + '/*.json'):
-    for line in open(f, errors='replace'):
-        try:
-            e = json.loads(line)
-        except Exception:
-            continue
-        t = e.get('Test')
-        if not t or e.get('Action') not in ('pass', 'fail', 'skip'):
-            continue
-        res[e['Package'] + '::' + t] = e['Action']
-bad = sorted(k for k in want if res.get(k) != 'pass')
-with open(out, 'w') as o:
-    if not bad:
-        o.write('suite: ok (%d/%d pinned tests pass with the change applied)\n' % (len(want), len(want)))
-    else:
-        o.write('suite: %d of %d pinned tests do not pass with the change applied\n' % (len(bad), len(want)))
-        for k in bad:
-            o.write('  %s -> %s\n' % (k, res.get(k, 'missing')))
-print(open(out).read().strip()[:1500])
-EOF
+python3 /verif/tools/seed_suite_cmp.py $L $S/suite.txt $WT
 git -C /repo worktree remove --force $WT
 # keep the raw logs of a run that did not pass (outside /verif), for diagnosis
 if grep -q '^suite: ok' $S/suite.txt; then rm -rf $L; else rm -rf /tmp/seedsuite-logs-$1; mv $L /tmp/seedsuite-logs-$1; fi
